@@ -243,6 +243,15 @@ def check(sim, case, st):
         return []
     loc = nm.loc
     target = snap0[loc][1]
+    # what the kernel says about the operand as written: 'dangling/' is ENOENT, 'link-to-file/' ENOTDIR (the name designates
+    # nothing), 'loop/' and the 41st link of a chain are ELOOP (something is there, it cannot be walked)
+    kerr = None
+    try:
+        from sim.vkernel import O as _O
+        _O.lstat(sim.root + (arg if arg.startswith('/') else posixpath.join(put.get('cwd', '/'), arg)))
+    except OSError as e_:
+        import errno as _E
+        kerr = _E.errorcode.get(e_.errno)
     r = sim.run(put)
     if '--home-fallback' in put['argv']:
         st.probes['cross-volume-fallback'] += 1
@@ -283,7 +292,7 @@ def check(sim, case, st):
     oc = outs[0]
     outcome = oc.state
     force = any(a in ('-f', '--force') for a in put['argv'])
-    if r.exit == 0 and oc.state == 'untouched' and force and slashes and tkind != 'dir':
+    if r.exit == 0 and oc.state == 'untouched' and force and slashes and tkind != 'dir' and kerr in ('ENOENT', 'ENOTDIR'):
         # 'link-to-file/' and 'dangling/' name nothing (ENOTDIR / ENOENT): under -f a name that does not exist is skipped silently
         st.probes['legitimate-force-skip-of-enotdir-name'] += 1
     elif r.exit == 0:
